@@ -5,7 +5,8 @@
 //!                                       `__verif_single_line`) applied to TEXT: `xHEX` | `not-utf8` | `no-such-kind`
 //!   (script SHELL (cmd NAME item*))  -> `(adv xSCRIPT) (inn xSCRIPT)`: the generated script with the
 //!                                       texts of the spec, and with every text replaced by innocuous
-//!                                       text of the same emptiness ("xx" / "")
+//!                                       text of the same emptiness ("xx" / ""); for zsh also
+//!                                       `(nodq xSCRIPT)`: the texts with every '"' deleted
 //!   (strreplace xPAT xREP xS)       -> `str::replace` of Rust std: `xHEX`
 //!   (lexport MACHINE STATE xINPUT xEXPECTED) -> EXPECTED as text (the python port's answer, compared
 //!                                       by the runner with the extracted Coq lexer's answer)
@@ -58,12 +59,29 @@ fn strreplace(args: &[Sx]) -> String {
     }
 }
 
-fn text(t: &Sx, innocuous: bool) -> String {
+/// How the texts of a spec are instantiated.
+#[derive(Clone, Copy, PartialEq)]
+enum Texts {
+    /// as given
+    Adversarial,
+    /// innocuous text of the same emptiness
+    Innocuous,
+    /// as given, with every '"' deleted (used to recognise the known zsh tooltip finding exactly)
+    NoDoubleQuote,
+}
+
+fn text(t: &Sx, mode: Texts) -> String {
     let b = t.bytes();
-    if innocuous {
-        if b.is_empty() { String::new() } else { "xx".to_string() }
-    } else {
-        String::from_utf8(b).expect("texts are UTF-8")
+    match mode {
+        Texts::Innocuous => {
+            if b.is_empty() { String::new() } else { "xx".to_string() }
+        }
+        Texts::Adversarial => String::from_utf8(b).expect("texts are UTF-8"),
+        Texts::NoDoubleQuote => {
+            let s = String::from_utf8(b).expect("texts are UTF-8");
+            let t = s.replace('"', "");
+            if t.is_empty() && !s.is_empty() { "x".to_string() } else { t }
+        }
     }
 }
 
@@ -84,7 +102,7 @@ fn hint(name: &str) -> ValueHint {
     }
 }
 
-fn build_arg(spec: &Sx, inn: bool) -> Arg {
+fn build_arg(spec: &Sx, inn: Texts) -> Arg {
     let items = spec.args();
     let mut a = Arg::new(items[0].sym().to_string());
     let mut takes = false;
@@ -142,7 +160,7 @@ fn build_arg(spec: &Sx, inn: bool) -> Arg {
     a
 }
 
-fn build_cmd(spec: &Sx, inn: bool) -> Command {
+fn build_cmd(spec: &Sx, inn: Texts) -> Command {
     let items = spec.args();
     let mut c = Command::new(items[0].sym().to_string());
     for it in &items[1..] {
@@ -186,7 +204,12 @@ fn script(args: &[Sx]) -> String {
         return "badcase".into();
     }
     let shell = args[0].sym();
-    let adv = generate(shell, build_cmd(&args[1], false));
-    let inn = generate(shell, build_cmd(&args[1], true));
-    format!("(adv {}) (inn {})", crate::hex(&adv), crate::hex(&inn))
+    let adv = generate(shell, build_cmd(&args[1], Texts::Adversarial));
+    let inn = generate(shell, build_cmd(&args[1], Texts::Innocuous));
+    let mut out = format!("(adv {}) (inn {})", crate::hex(&adv), crate::hex(&inn));
+    if shell == "zsh" {
+        let alt = generate(shell, build_cmd(&args[1], Texts::NoDoubleQuote));
+        out.push_str(&format!(" (nodq {})", crate::hex(&alt)));
+    }
+    out
 }
